@@ -258,6 +258,29 @@ def run(ctx):
     except Exception as ex:
         ctx.violation('als:adaptive+use_stab', 'als(r=2, use_stab=True) raised %s: %s' % (type(ex).__name__, ex))
     ctx.case(key='als-adaptive-stab', nontrivial=True)
+    # an undefined relative accuracy is the documented sentinel -1, never NaN: validation data given only in part
+    Yv = teneva.rand([3, 3, 3], 2, seed=3)
+    Iv = teneva.sample_lhs([3, 3, 3], 7, seed=1)
+    yv = teneva.get_many(Yv, Iv)
+    for nameI, Ia in (('I', Iv), ('none', None)):
+        for namey, ya in (('y', yv), ('none', None)):
+            if Ia is not None and ya is not None:
+                continue
+            v = teneva.accuracy_on_data(Yv, Ia, ya)
+            ctx.case(key=('aod-sentinel', nameI, namey), nontrivial=True)
+            ctx.check(isinstance(v, (int, float, np.floating, np.integer)) and v == -1, 'accuracy_on_data:sentinel', 'accuracy_on_data(Y, %s, %s) = %r, documented sentinel -1' % (nameI, namey, v))
+            for rt in ('cross', 'als'):
+                info = {}
+                try:
+                    if rt == 'cross':
+                        teneva.cross(lambda J: teneva.get_many(Yv, J), teneva.rand([3, 3, 3], 2, seed=4), nswp=1, info=info, I_vld=Ia, y_vld=ya)
+                    else:
+                        It = teneva.grid_flat([3, 3, 3])
+                        teneva.als(It, teneva.get_many(Yv, It), teneva.rand([3, 3, 3], 2, seed=4), nswp=1, info=info, I_vld=Ia, y_vld=ya)
+                except Exception as ex:
+                    ctx.violation('%s:partial-validation' % rt, '%s with %s / %s as validation data raised %s: %s' % (rt, nameI, namey, type(ex).__name__, ex))
+                    continue
+                ctx.check(info.get('e_vld') == -1, '%s:e_vld-sentinel' % rt, '%s with validation data (%s, %s): info["e_vld"] = %r, documented sentinel -1' % (rt, nameI, namey, info.get('e_vld')))
     # ---- exact ranks on exactly-zero / rank-deficient spectra
     for cfg in ('Rounding_degen.cfg', 'Rounding_degen2.cfg'):
         cases = RD.emit(ctx, cfg, 'Rounding with zero energies (zero tensor, zero / deficient unfoldings): ' + cfg, workers=16)
